@@ -1,8 +1,8 @@
 SPECIFICATION Spec
 CONSTANTS
   Part = "xslice"
-  MaxLen = 4
-  VMag = 3
+  MaxLen = 3
+  VMag = 2
   Mixed = FALSE
   Dump = TRUE
 INVARIANT ImplAgrees
